@@ -30,8 +30,12 @@ def frag_lines(rng, payload, fill, n, mid, wild=False):
 def noise_line(rng):
     """A line that must leave no trace: rejected by form / checksum, or an unfragmented sentence."""
     r = rng.random()
-    if r < 0.35:
+    if r < 0.2:
         return rand_valid_sentence(rng, wild=False)                       # unfragmented
+    if r < 0.35:
+        # unfragmented, but carrying a sequence id (some transmitters send one)
+        p_, f_ = gen.valid_message_payload(rng)
+        return ais.sentence(p_, fill=f_, nf=1, fn=rng.choice([1, 1, 1, 2]), mid=rng.choice([0, 1, 2, 3, 5, 7, 9]))
     if r < 0.5:
         return ais.sentence(gen.random_alphabet(rng, 5), cks=rng.getrandbits(8) | 0x100 & 0xFF)  # (mostly) bad checksum
     if r < 0.65:
@@ -213,27 +217,32 @@ class C06:
         if depth == 4:
             letters = [self.mk(rng, n, k, mid, b"x") for (n, k, mid) in alpha if n <= 3] + extra
         for seq in itertools.product(range(len(letters)), repeat=depth):
-            ops = ["N 0"] + [L(letters[i] if j == 0 else letters[i], 0, 0) for j, i in enumerate(seq)]
-            yield ("exhaustive", ops)
+            # decode off and decode on (the test payloads do not decode: a delivered group then answers
+            # with a decode error, and must still be closed)
+            for dec in (0, 1):
+                ops = ["N 0"] + [L(letters[i], 0, dec) for i in seq]
+                yield ("exhaustive", ops)
         for _ in range(300 if tier == "quick" else 5000):
             ops = ["N 0"]
             ln = rng.randrange(5, 60)
             cur = None
+            dmode = rng.randrange(3)     # 0: decode off, 1: on, 2: mixed
             for j in range(ln):
                 r = rng.random()
+                dec = dmode if dmode < 2 else rng.randrange(2)
                 if cur and r < 0.55:
                     n, k, mid = cur
                     k2 = k + 1 if rng.random() < 0.75 else rng.randrange(1, n + 1)
                     mid2 = mid if rng.random() < 0.85 else rng.choice([None, 1, 2])
                     k2 = min(k2, n)
-                    ops.append(L(self.mk(rng, n, k2, mid2, bytes([65 + j % 26])), 0, 0))
+                    ops.append(L(self.mk(rng, n, k2, mid2, bytes([65 + j % 26])), 0, dec))
                     cur = (n, k2, mid2) if k2 < n else (cur if rng.random() < 0.3 else None)
                 elif r < 0.8:
                     n, k, mid = rng.choice(alpha)
-                    ops.append(L(self.mk(rng, n, k, mid, bytes([65 + j % 26])), 0, 0))
+                    ops.append(L(self.mk(rng, n, k, mid, bytes([65 + j % 26])), 0, dec))
                     cur = (n, k, mid)
                 else:
-                    ops.append(L(rng.choice(extra), 0, 0))
+                    ops.append(L(rng.choice(extra), 0, dec))
             yield ("random", ops)
 
     def judge(self, rep, cfg, label, ops, impl, model):
@@ -254,6 +263,12 @@ class C06:
             got = ("R",) if pa["cls"] not in ("C", "I") else (("I",) if pa["cls"] == "I" else ("C", bytes.fromhex(pa["sent"]["data"])))
             if ref[0] == "ok" and ref[1]["fn"] >= 2 and got[0] != "R":
                 interesting = True
+            dec_on = op.split(" ")[2] == "1"
+            if dec_on and want[0] == "C" and got == ("R",) and pa["cls"] == "E" and pa.get("err") == "nmea" \
+                    and m.split(" ")[0] == "E":
+                # the delivered payload does not decode: an error is the specified outcome; that the group was
+                # nevertheless consumed is checked through the state comparison below and by the following lines
+                got = want
             if got != want:
                 rep.violation(f"C06: line {line!r} answered {got}, the group automaton specifies {want}",
                               {"cfg": cfg, "ops": ops[:ops.index(op) + 1], "impl": a})
@@ -579,17 +594,26 @@ class C01:
         scale = 1 if tier == "quick" else 12
         ops += mixed_stream(rng, tier, 1500 * scale)
         # every numbering after representative states
-        for pre in ([], [(3, 1, 5)], [(3, 1, 5), (3, 2, 5)], [(9, 1, None), (9, 2, None), (9, 3, None)], [(2, 1, 1), (2, 2, 1)],
-                    [(255, 1, 0)] + [(255, k, 0) for k in range(2, 255)]):
+        for pre in ([], [(3, 1, 5)], [(3, 1, 5), (3, 2, 5)], [(9, 1, None), (9, 2, None), (9, 3, None)], [(2, 1, 1), (2, 2, 1)]):
             nums = [(n, k) for n in (0, 1, 2, 3, 9, 254, 255) for k in (0, 1, 2, 3, 4, 8, 9, 10, 253, 254, 255)]
             if tier != "quick":
                 nums = [(n, k) for n in range(0, 256, 5) for k in range(0, 256, 3)]
             for (n, k) in nums:
                 for mid in (None, 5, 0):
                     ops.append("N 0")
-                    for (a, b, c) in pre[-6:] if len(pre) > 10 else pre:
+                    for (a, b, c) in pre:
                         ops.append(L(ais.sentence(b"12", nf=a, fn=b, mid=c), 0, 0))
                     ops.append(L(ais.sentence(b"15", nf=n, fn=k, mid=mid), 0, rng.randrange(2)))
+        # the longest possible group: 254 accepted fragments (counter at 254), and the completed
+        # 255-fragment group (counter must be back at 0), each followed by boundary numberings
+        for upto in (254, 255):
+            for (n, k, mid) in ((255, 255, 0), (255, 254, 0), (255, 253, 0), (2, 2, None), (2, 2, 0), (1, 0, None),
+                                (0, 0, 0), (255, 0, 0), (1, 255, None), (3, 1, 0), (255, 1, None), (1, 1, None)):
+                ops.append("N 0")
+                for j in range(1, upto + 1):
+                    ops.append(L(ais.sentence(b"1", nf=255, fn=j, mid=0), 0, 0))
+                ops.append(L(ais.sentence(b"15", nf=n, fn=k, mid=mid), 0, rng.randrange(2)))
+                ops.append(L(ais.sentence(b"15", nf=n, fn=k, mid=mid), 0, rng.randrange(2)))
         # the full 255-fragment group once
         ops.append("N 0")
         for k in range(1, 256):
@@ -669,8 +693,16 @@ class C20:
                 lines.append(rand_bytes(rng, rng.choice([1, 4, 30]), exclude=b"\n"))
             elif r < 0.8:
                 lines.append(rand_valid_sentence(rng, wild=False) + b"\r")
-            elif r < 0.85:
+            elif r < 0.83:
                 lines.append(b"\xff\xfe garbage \x80")
+            elif r < 0.86:
+                # very long lines (longer than any internal buffer), some running straight into sentence text
+                n = rng.choice([1023, 1024, 1025, 1500, 4096, 8191, 8192, 8193, 20000])
+                tail = rand_valid_sentence(rng, wild=False) if rng.random() < 0.5 else b""
+                lines.append(rand_bytes(rng, n, exclude=b"\n") [:n - len(tail)] + tail)
+            elif r < 0.88:
+                p_, f_ = gen.valid_message_payload(rng)
+                lines.append(ais.sentence(p_, fill=f_, nf=rng.choice([0, 1, 1, 2]), fn=rng.choice([0, 2, 3, 255])))
             elif r < 0.9:
                 lines.append(rand_valid_sentence(rng) .replace(b"\n", b" "))
             else:
